@@ -1,4 +1,4 @@
-\* thorough: 3 calls x 2 connections, 1 drop, 2 noise packets (reduced interleaving RedSpec, see LiteClient_MC.tla)
+\* big: 3 calls x 2 connections, 1 drop, 2 noise packets (reduced interleaving RedSpec); 16 workers; not part of the tiers' time budget
 CONSTANTS
   Calls = {c1, c2, c3}
   NConns = 2
